@@ -708,7 +708,8 @@ fn gen_layout(rng: &mut Rng, recs: &[Rec], fq: bool) -> String {
                 // sequence pieces must not start with '+'
                 let mut sw;
                 loop {
-                    sw = if rng.chance(1, 3) { vec![r.seq.len()] } else { widths(rng, r.seq.len(), true) };
+                    let bl = rng.chance(1, 4);
+                    sw = if rng.chance(1, 3) { vec![r.seq.len()] } else { widths(rng, r.seq.len(), bl) };
                     let mut p = 0;
                     let mut ok = true;
                     for &w in &sw {
@@ -725,12 +726,17 @@ fn gen_layout(rng: &mut Rng, recs: &[Rec], fq: bool) -> String {
                 let k = sw.len();
                 let mut qw = vec![0usize; k];
                 let mut left = q.len();
+                let samew = rng.chance(2, 3);
                 for i in 0..k {
+                    if samew {
+                        qw[i] = sw[i];
+                        continue;
+                    }
                     let w = if i + 1 == k { left } else if rng.chance(1, 2) { sw[i].min(left) } else { rng.below(left + 1) };
                     qw[i] = w;
                     left -= w;
                 }
-                let plus = if rng.chance(1, 3) {
+                let plus = if rng.chance(1, 4) {
                     let mut p = r.id.clone();
                     if let Some(d) = &r.desc {
                         p.push(b' ');
@@ -742,7 +748,8 @@ fn gen_layout(rng: &mut Rng, recs: &[Rec], fq: bool) -> String {
                 };
                 format!("{}:{}:{}:{}:{}", enc_rec(r), eol, hex(&plus), join(&sw, ","), join(&qw, ","))
             } else {
-                let sw = widths(rng, r.seq.len(), true);
+                let bl = rng.chance(1, 4);
+                let sw = widths(rng, r.seq.len(), bl);
                 format!("{}:{}:{}", enc_rec(r), eol, join(&sw, ","))
             }
         })
